@@ -87,6 +87,13 @@ pub const TEMPLATES: &[&str] = &[
     "(def-m $N)",
     "(define-syntax def-v (syntax-rules () ((def-v name e) (define name e))))",
     "(def-v $N $E)",
+    "(define-syntax dot-m (syntax-rules () ((dot-m a b . c) (quote (a b c)))))",
+    "(define-syntax dot-v (syntax-rules () ((dot-v (a . b) c ... . d) (list a c ...))))",
+    "(dot-m $S)",
+    "(dot-m)",
+    "(dot-m . $T)",
+    "(dot-v $S)",
+    "(dot-v ($S) $S)",
     "(import $I)",
     "(import $I $I)",
     "(import $T)",
@@ -457,6 +464,12 @@ pub fn run(ctx: &Ctx) {
     ctx.random("soup", n_soup, 300, |ch| {
         let n = 1 + ch.below(6);
         let mut forms = vec![];
+        // one case in six starts from the macro definitions that several templates use, so that uses meet definitions
+        if ch.chance(1, 6) {
+            for t in TEMPLATES.iter().filter(|t| t.starts_with("(define-syntax d") && !t.contains('$')) {
+                forms.push(t.to_string());
+            }
+        }
         for _ in 0..n {
             let depth = 1 + ch.below(4) as u32;
             let t = *ch.pick(TEMPLATES);
